@@ -541,10 +541,12 @@ func c13case(c *runner.Ctx, i int) {
 			c.Add("ctx_cancelled", 1)
 		}
 		if len(arr) == 0 {
-			if loadLike(execErr) {
+			if drops || classifyErr(execErr) == "no-connections" || classifyErr(execErr) == "conn-closed" {
+				// nobody to send it to (scripted): not a finding
+			} else if loadLike(execErr) {
 				// a starved machine: the driver's timeout expired before the request got anywhere
 				c.Inconclusive("c13-timeout", "the query reached no server: "+fmt.Sprint(execErr))
-			} else if !drops && classifyErr(execErr) != "no-connections" && classifyErr(execErr) != "conn-closed" {
+			} else {
 				fail("never-sent", "the query reached no server at all: "+fmt.Sprint(execErr))
 			}
 			continue
